@@ -16,6 +16,8 @@ import M17.Model.Queue
 import M17.Model.Llr
 import M17.Model.Dsp
 import M17.Gen.Taps
+import M17.Spec.Tx
+import M17.Model.Mod
 
 open M17
 
@@ -222,6 +224,39 @@ def handle (st : DrvState) (op : String) (a : List Int) : DrvState × String :=
   | "iir", d :: toks =>
     if d != 0 then (st, iirRun (Gen.corrBD.map tapFloat) (Gen.corrAD.map tapFloat) (fun n => Float.ofInt n / 4096) dblBits toks)
     else (st, iirRun (Gen.corrBF.map tapFloat32) (Gen.corrAF.map tapFloat32) (fun n => (Float.ofInt n).toFloat32 / 4096) (fun y => Int.ofNat y.toBits.toNat) toks)
+  | "spec_lsf", can :: ns :: rest =>
+    -- spec_lsf <can> <nsrc> src... <ndst> dst... -> 30 LSF bytes | 48 frame bytes
+    let src := (rest.take ns.toNat).map Int.toNat
+    let rest2 := rest.drop ns.toNat
+    let dst := match rest2 with | nd :: r => (r.take nd.toNat).map Int.toNat | [] => []
+    let lsf := Spec.Tx.lsfBytes dst src (Spec.Tx.voiceType can.toNat) (List.replicate 14 0)
+    (st, joinNats lsf ++ " | " ++ joinNats (Spec.Tx.lsfFrame lsf))
+  | "spec_stream_frame", lichN :: fn :: rest =>
+    -- spec_stream_frame <lich number> <frame number> lsf x30 payload x16 -> 48 bytes
+    let lsf := (rest.take 30).map Int.toNat
+    let pl := (rest.drop 30).map Int.toNat
+    (st, joinNats (Spec.Tx.streamFrame lsf lichN.toNat fn.toNat pl))
+  | "spec_bert", state :: n :: _ =>
+    let (bytes, g) := (List.range n.toNat).foldl (fun (acc : List Nat × Nat) _ =>
+      (acc.1 ++ Spec.Tx.bertFrame (Prbs.genBits 197 acc.2), Prbs.genState 197 acc.2)) ([], state.toNat)
+    (st, joinNats (bytes ++ [g]))
+  | "spec_stream", can :: ns :: rest =>
+    -- spec_stream <can> <nsrc> src... <ndst> dst... <npayloads> payloads(16 each)...
+    let src := (rest.take ns.toNat).map Int.toNat
+    let rest2 := rest.drop ns.toNat
+    match rest2 with
+    | nd :: r =>
+      let dst := (r.take nd.toNat).map Int.toNat
+      match r.drop nd.toNat with
+      | np :: pr =>
+        let pls := (List.range np.toNat).map fun k => ((pr.drop (16 * k)).take 16).map Int.toNat
+        (st, joinNats (Spec.Tx.stream src dst can.toNat pls))
+      | [] => (st, "bad-args")
+    | [] => (st, "bad-args")
+  | "mod_plan", samples =>
+    let p := Mod.plan samples
+    let q := Mod.specPlan samples
+    (st, (if p == q then "same " else "DIFF ") ++ joinNats (p.flatMap fun f => [f.1, f.2.1]))
   | _, _ => (st, "bad-op")
 
 partial def loop (h : IO.FS.Stream) (out : IO.FS.Stream) (st : DrvState) : IO Unit := do
